@@ -173,3 +173,11 @@ Proof.
   induction l as [|[[a0 b0] v0] l IH]; cbn [aremove2 alookup2]; [reflexivity|].
   destruct (N.eqb a a0 && N.eqb b b0) eqn:E; [exact IH|]. cbn [alookup2]. rewrite E. exact IH.
 Qed.
+Lemma alookup2_aset2_other {V} a b (v : V) a' b' l : (a', b') <> (a, b) -> alookup2 a' b' (aset2 a b v l) = alookup2 a' b' l.
+Proof.
+  intros Hne. induction l as [|[[a0 b0] v0] l IH]; cbn [aset2 alookup2].
+  - rewrite (key2_neq _ _ _ _ Hne). reflexivity.
+  - destruct (N.eqb a a0 && N.eqb b b0) eqn:E; cbn [alookup2].
+    + apply andb_true_iff in E. destruct E as [E1 E2]. apply N.eqb_eq in E1, E2. subst. rewrite (key2_neq _ _ _ _ Hne). reflexivity.
+    + rewrite IH. reflexivity.
+Qed.
